@@ -2,6 +2,8 @@
 
 package protojson
 
+import "google.golang.org/protobuf/reflect/protoreflect"
+
 // Contracts for the well-known-type text parsers (property C23).
 //
 //@ pure bytes.TrimLeft
@@ -86,5 +88,60 @@ func specDurationOK(in string) bool {
 //@ loop 3 decreases 9-i
 func contract_parseDuration(input string) (secs int64, nanos int32, ok bool) {
 	ensures(imp(ok, specDurationOK(input)))
+	return
+}
+
+// ---------------------------------------------------------------- Duration / Timestamp: which values may be written
+//
+// The encoder reads the fields through protoreflect. Those reads are uninterpreted, pure
+// observers here (same receiver and descriptor: same value), so that the acceptance condition
+// can be stated over the values read.
+//
+//@ pure protoreflect.Message.Descriptor protoreflect.MessageDescriptor.Fields protoreflect.FieldDescriptors.ByNumber
+//@ pure protoreflect.Message.Get protoreflect.Value.Int
+
+func specFieldInt(m protoreflect.Message, num protoreflect.FieldNumber) int64 {
+	return m.Get(m.Descriptor().Fields().ByNumber(num)).Int()
+}
+
+// specDurationWritable: google.protobuf.Duration documents seconds in [-315576000000,
+// +315576000000] (10000 years), nanos in [-999999999, +999999999], and "for durations of one
+// second or more, a non-zero value for the nanos field must be of the same sign as seconds".
+func specDurationWritable(secs, nanos int64) bool {
+	if secs < -315576000000 || secs > 315576000000 {
+		return false
+	}
+	if nanos < -999999999 || nanos > 999999999 {
+		return false
+	}
+	if (secs > 0 && nanos < 0) || (secs < 0 && nanos > 0) {
+		return false
+	}
+	return true
+}
+
+// marshalDuration writes a value exactly when it is a valid Duration.
+//
+//@ props C23
+//@ mode int
+//@ nopanic
+func contract_encoder_marshalDuration(e encoder, m protoreflect.Message) (err error) {
+	modifiesAll()
+	ensures(iff(err == nil, specDurationWritable(specFieldInt(m, 1), specFieldInt(m, 2))))
+	return
+}
+
+// specTimestampWritable: google.protobuf.Timestamp documents seconds from 0001-01-01T00:00:00Z
+// (-62135596800) to 9999-12-31T23:59:59Z (253402300799) and nanos in [0, 999999999].
+func specTimestampWritable(secs, nanos int64) bool {
+	return -62135596800 <= secs && secs <= 253402300799 && 0 <= nanos && nanos <= 999999999
+}
+
+//@ props C23
+//@ mode int
+//@ nopanic
+func contract_encoder_marshalTimestamp(e encoder, m protoreflect.Message) (err error) {
+	modifiesAll()
+	ensures(iff(err == nil, specTimestampWritable(specFieldInt(m, 1), specFieldInt(m, 2))))
 	return
 }
